@@ -34,6 +34,11 @@ from vizier._src.service import vizier_service  # noqa: E402
 from google.longrunning import operations_pb2  # noqa: E402
 
 
+def _exc_class(name):
+    b = __import__('builtins')
+    return getattr(b, name, None) or getattr(pythia, name)
+
+
 class ScriptedFactory(pythia.PolicyFactory):
     def __init__(self, script):
         self.script = script or {}
@@ -50,7 +55,7 @@ class ScriptedFactory(pythia.PolicyFactory):
             if 'raise' in e0 and e0.get('where') == 'factory' and not self.script.get('_early_stop_call'):
                 self.n_suggest += 1
                 self.log.append(('factory', None, e0))
-                raise getattr(__import__('builtins'), e0['raise'])('scripted failure while building the policy')
+                raise _exc_class(e0['raise'])('scripted failure while building the policy')
 
         class Pol(pythia.Policy):
             def suggest(self, request):
@@ -59,7 +64,7 @@ class ScriptedFactory(pythia.PolicyFactory):
                 fac.n_suggest += 1
                 fac.log.append(('suggest', request.count, e))
                 if 'raise' in e:
-                    raise getattr(__import__('builtins'), e['raise'])('scripted failure')
+                    raise _exc_class(e['raise'])('scripted failure')
                 d = e.get('deliver', '+0')
                 n = request.count + int(d) if isinstance(d, str) else int(d)
                 n = max(n, 0)
@@ -73,7 +78,7 @@ class ScriptedFactory(pythia.PolicyFactory):
                 fac.n_stop += 1
                 fac.log.append(('early_stop', list(request.trial_ids or []), e))
                 if 'raise' in e:
-                    raise getattr(__import__('builtins'), e['raise'])('scripted failure')
+                    raise _exc_class(e['raise'])('scripted failure')
                 return pythia.EarlyStopDecisions(decisions=[pythia.EarlyStopDecision(id=i, reason='scripted', should_stop=True) for i in e.get('stop', [])])
 
             @property
